@@ -13,6 +13,9 @@ Definition nn_update_scaling (s z : list T) : list T * list T :=
   (map2 (fun si zi => sqrt O (div O si zi)) s z,
    map2 (fun si zi => sqrt O (mul O si zi)) s z).
 
+(** set_identity_scaling: w = 1 (λ untouched) *)
+Definition nn_set_identity_scaling (w : list T) : list T := map (fun _ => one O) w.
+
 (** mul_W / mul_Winv: y[i] = α*(x[i]*w[i]) + β*y[i]   (the transpose flag is ignored) *)
 Fixpoint nn_mul_W (w x : list T) (a b : T) (y : list T) : list T :=
   match w, x, y with
